@@ -281,7 +281,21 @@ func vpPostCampaignGate(r *raft, pre vpRec, p2 vpPre2, m *pb.Message) {
 		return
 	}
 	blocked := vpHasUnappliedConf(pre.view)
-	quiet := vpAnd(r.Term == pre.term, r.Vote == pre.vote, r.state == pre.state, len(r.msgs) == pre.nmsgs, len(r.msgsAfterAppend) == pre.nafter)
+	// "no campaign": no vote request leaves, no self vote is queued, the node
+	// does not become a (pre-)candidate; adopting the sender's higher term as a
+	// follower is not a campaign
+	noVoteMsgs := true
+	for _, x := range r.msgs[pre.nmsgs:] {
+		if x.GetType() == pb.MsgVote || x.GetType() == pb.MsgPreVote {
+			noVoteMsgs = false
+		}
+	}
+	for _, x := range r.msgsAfterAppend[pre.nafter:] {
+		if x.GetType() == pb.MsgVoteResp || x.GetType() == pb.MsgPreVoteResp {
+			noVoteMsgs = false
+		}
+	}
+	quiet := vpAnd(noVoteMsgs, r.state == pre.state || r.state == StateFollower, vpOr(r.Term == pre.term, vpAnd(r.Term == m.GetTerm(), r.state == StateFollower)))
 	vpAssert(vpImplies(blocked, quiet), "G3/no-campaign-with-unapplied-conf-change")
 	if m.GetType() == pb.MsgHup && pre.state == StateFollower {
 		pr := r.trk.Progress[r.id]
